@@ -669,9 +669,18 @@ def _cb_cret(code, off, fn, arg0):
 # shims installed at the standard-library boundary
 
 
+def _is_task_command(args):
+    try:
+        if len(args) >= 3 and os.fsdecode(args[1]) == "-c" and os.fsdecode(args[2]).startswith("sim "):
+            return True
+    except Exception:
+        pass
+    return False
+
+
 def _sh_fork_exec(*a):
     s = CUR
-    if s is None or a[1] != (b"/bin/bash",) or not is_main():
+    if s is None or not is_main() or not _is_task_command(a[0]):
         return REAL.fork_exec(*a)
     pid = s.k_fork_exec(*a)
     s.after_call()
@@ -931,7 +940,7 @@ class Sim:
         self.plans = plans  # {uid: plan} or None
         self.clock = float(scenario.get("epoch", 1_700_000_000))
         self.sim_seconds = 0.0
-        self.git_state = scenario.get("git", {"mode": "none"})
+        self.git_state = json.loads(json.dumps(scenario.get("git", {"mode": "none"})))
         self.git = FakeGit(self.git_state)
         self.exec_count = {}  # task -> number of executions so far (whole history)
         self.inv_index = 0
@@ -1048,7 +1057,7 @@ class Sim:
             "pid": pid, "task": task, "execno": execno, "argv": argv, "cwd": cwd_s, "env": env,
             "slot": env.get("COND_SLOT"), "io": kinds, "listing": listing, "n": self.n,
             "session": bool(call_setsid), "ti": len(self.trace), "running": running,
-            "clock": self.clock,
+            "clock": self.clock, "executable": [os.fsdecode(x) for x in executable_list],
         }
         self.spawns.append(sp)
         self.emit("spawn", p.name, env.get("COND_SLOT"), call_setsid)
